@@ -1584,6 +1584,49 @@ class Module:
         self.out.append(indent(code, 1))
         self.out.append("")
 
+    # -- T20: port_to_line_data ---------------------------------------------------------------------------------------------------------
+    def translate_port_to_line(self, lean_name: str) -> None:
+        """T20: `port_to_line_data(port_data, mask, bitorder)` over the integer sample values: the width from the array's item size, the
+        check of the mask against `bit_mask(port_size)`, the NumPy unpacking block (compared as text with its canonical four statements and
+        read as `Model.Port.unpackRow` per sample - that reading is what tools/props/c06.py tests exhaustively on 8-bit ports), the full-mask
+        shortcut and the column selection through the generated `_mask_to_column_indices`."""
+        fn = self.find_func(None, "port_to_line_data")
+        body = [st for st in fn.body if not (isinstance(st, ast.Expr) and isinstance(st.value, ast.Constant))]
+        src = [ast.unparse(st) for st in body]
+
+        def fail(msg, node):
+            raise Untranslatable(f"port_to_line_data: {msg}", node, self.path)
+        if [a.arg for a in fn.args.args] != ["port_data", "mask", "bitorder"]:
+            fail("parameters", fn)
+        want0 = "port_size = port_data.dtype.itemsize * 8"
+        block = ["byteorder = '>' if bitorder == 'big' else '<'",
+                 "port_data = np.ascontiguousarray(port_data, dtype=port_data.dtype.newbyteorder(byteorder))",
+                 "line_data_1d = np.unpackbits(port_data.view(np.uint8), bitorder=bitorder)",
+                 "line_data_2d = line_data_1d.reshape(len(port_data), port_size)"]
+        if len(body) != 7 or src[0] != want0:
+            fail(f"expected 7 statements starting with `{want0}`, found {len(body)}", fn)
+        chk = body[1]
+        if not (isinstance(chk, ast.If) and ast.unparse(chk.test) == "mask > bit_mask(port_size)" and not chk.orelse and len(chk.body) == 1
+                and isinstance(chk.body[0], ast.Raise) and isinstance(chk.body[0].exc, ast.Call) and ast.unparse(chk.body[0].exc.func) == "ValueError"):
+            fail("expected `if mask > bit_mask(port_size): raise ValueError(...)`", chk)
+        if src[2:6] != block:
+            fail("the unpacking block is not the canonical four statements:\n" + "\n".join(src[2:6]), body[2])
+        sel = body[6]
+        if not (isinstance(sel, ast.If) and ast.unparse(sel.test) == "mask == bit_mask(port_size)" and len(sel.body) == 1 and ast.unparse(sel.body[0]) == "return line_data_2d"
+                and len(sel.orelse) == 1 and ast.unparse(sel.orelse[0]) == "return line_data_2d[:, _mask_to_column_indices(mask, port_size, bitorder)]"):
+            fail("expected the full-mask shortcut and the column selection", sel)
+        code = ("Except.bind (Gen.Port.bit_mask port_size) (fun full =>\n"
+                "  if mask > full then Except.error PyErr.ValueError else\n"
+                "  let line_data_2d : List (List Int) := port_data.map (fun v => Model.Port.unpackRow (v % 2 ^ port_size.toNat) port_size.toNat (decide (bitorder = \"big\")))\n"
+                "  Except.bind (Gen.Port.bit_mask port_size) (fun full2 =>\n"
+                "    if mask = full2 then Except.ok line_data_2d\n"
+                "    else Except.bind (Gen.Port._mask_to_column_indices mask port_size bitorder) (fun cols =>\n"
+                "      Except.ok (line_data_2d.map (fun row => cols.map (fun c => Model.Port.pick row c))))))")
+        self.out.append("/-- generated from `port_to_line_data` (nitypes/waveform/_digital/_port.py): `port_data` are the sample values, `port_size` the bit width of the array's dtype -/")
+        self.out.append(f"@[pygen] def {lean_name} (port_data : List Nat) (port_size : Int) (mask : Int) (bitorder : String) : Except PyErr (List (List Int)) :=")
+        self.out.append(indent(code, 1))
+        self.out.append("")
+
     # -- T14: a dict-backed mapping with change notifications ----------------------------------------------------------------------
     def translate_dict_class(self, cls: str) -> None:
         """T14: `ExtendedPropertyDictionary` (nitypes/waveform/_extended_properties.py): a MutableMapping over `self._properties` whose
